@@ -43,12 +43,47 @@ Theorem C16_handle_readdir_is_the_pager : forall st h n names,
 Proof. exact read_dir_is_page. Qed.
 Print Assumptions C16_handle_readdir_is_the_pager.
 
-(* A non-positive count returns all entries with a nil error. *)
-Theorem C16_nonpositive_count_returns_all : forall st h n names,
-  h_closed h = false -> h_names h = Some (inl names) -> (n <= 0)%Z ->
+(* A non-positive count returns all entries that remain (all of them on a fresh handle) with a nil error,
+   and leaves the handle at the end. *)
+Theorem C16_nonpositive_count_returns_the_rest : forall st h n names,
+  h_closed h = false -> h_names h = Some (inl names) -> (n <= 0)%Z -> (0 <= h_off h <= Z.of_nat (length names))%Z ->
+  let '(st', h', l, e) := read_dir st h n in
+  e = None -> map fst l = skipn (Z.to_nat (h_off h)) names /\ h_off h' = Z.of_nat (length names).
+Proof. exact read_dir_rest. Qed.
+Print Assumptions C16_nonpositive_count_returns_the_rest.
+
+Theorem C16_nonpositive_count_on_fresh_handle_returns_all : forall st h n names,
+  h_closed h = false -> h_names h = Some (inl names) -> (n <= 0)%Z -> h_off h = 0%Z ->
   let '(st', h', l, e) := read_dir st h n in e = None -> map fst l = names.
 Proof. exact read_dir_all. Qed.
-Print Assumptions C16_nonpositive_count_returns_all.
+Print Assumptions C16_nonpositive_count_on_fresh_handle_returns_all.
+
+(* Mixed counts of any sign: the handle is the pager [zpage]; any sequence that reaches the end delivered
+   every child exactly once in order; a non-positive count always reaches the end. *)
+Theorem C16_handle_readdir_any_count : forall st h n names,
+  h_closed h = false -> h_names h = Some (inl names) -> (0 <= h_off h <= Z.of_nat (length names))%Z ->
+  let '(st', h', l, e) := read_dir st h n in
+  match zpage names (Z.to_nat (h_off h)) n with
+  | None => l = [] /\ e = Some (Bare EEOF) /\ h' = h
+  | Some (p, o) => e = None -> map fst l = p /\ h_off h' = Z.of_nat o
+  end.
+Proof. exact read_dir_is_zpage. Qed.
+Print Assumptions C16_handle_readdir_any_count.
+
+Theorem C16_mixed_pages_partition : forall names ns,
+  snd (zpages names 0 ns) = length names -> concat (fst (zpages names 0 ns)) = names.
+Proof. exact zpages_partition. Qed.
+Print Assumptions C16_mixed_pages_partition.
+
+Theorem C16_mixed_pages_consecutive : forall names ns off, off <= length names ->
+  let '(ps, o) := zpages names off ns in concat ps = sublist off o names /\ off <= o <= length names.
+Proof. exact zpages_consecutive. Qed.
+Print Assumptions C16_mixed_pages_consecutive.
+
+Theorem C16_nonpositive_count_reaches_the_end : forall names ns off, off <= length names ->
+  Exists (fun n => (n <= 0)%Z) ns -> snd (zpages names off ns) = length names.
+Proof. exact zpages_nonpositive_reaches_end. Qed.
+Print Assumptions C16_nonpositive_count_reaches_the_end.
 
 (* Listing a non-directory fails with ErrNotDir. *)
 Theorem C16_listing_a_non_directory_fails : forall st h n,
@@ -70,3 +105,7 @@ Example C16_nonvacuous :
   pages [S "a"; S "b"; S "c"; S "d"; S "e"] 0 [2; 1; 7; 1] = ([[S "a"; S "b"]; [S "c"]; [S "d"; S "e"]], 5).
 Proof. vm_compute. reflexivity. Qed.
 Print Assumptions C16_nonvacuous.
+
+Example C16_nonvacuous_mixed :
+  zpages [S "a"; S "b"; S "c"; S "d"; S "e"] 0 [2; -1; 1]%Z = ([[S "a"; S "b"]; [S "c"; S "d"; S "e"]], 5).
+Proof. vm_compute. reflexivity. Qed.
